@@ -205,7 +205,7 @@ theorem parseNameAddrPVal_stable (h : Nat) (b s : Buf) (o : Nat) (pf : PFromBody
     rcases hok with hok | hok
     · exact absurd hok hf
     · simp only at hr ⊢
-      rcases hrl : runLoop (naMachine h) b o { pf with s := pf.soffs } with ⟨o1, e1, p1⟩
+      rcases hrl : runLoop (naMachine h) b o { pf with s := pf.soffs, soffs := 0 } with ⟨o1, e1, p1⟩
       rw [hrl] at hr
       simp only [Prod.mk.injEq] at hr
       obtain ⟨rfl, rfl, rfl⟩ := hr
